@@ -130,3 +130,24 @@ def sender_and_receiver_feed_the_same_inputs(tx, rx, frame):
 ASSUMPTIONS = [
     "ideal-cipher model of AES-CBC-MAC / AES-CTR (contracts/crypto_model.py): no MAC collisions (also not on 32 transmitted bits), CTR decryption inverse to encryption under the same key and counter block and unrelated otherwise; 2^-32 / 2^-128 events treated as impossible",
 ]
+
+
+# ------------------------------------------------------------------ the mark on the delivered telegram
+
+from contracts.c18_secure_receive import HANDLER as _HANDLER, LDATA as _LDATA, STUBS as _HSTUBS  # noqa: E402
+from xknx.cemi.cemi_frame import CEMIFrame as _CEMIFrame  # noqa: E402
+from xknx.cemi.const import CEMIMessageCode as _Code  # noqa: E402
+from xknx.telegram.apci import SecureAPDU as _SecureAPDU  # noqa: E402
+
+
+@lemma("C15", params=dict(h=_HANDLER, frame=_LDATA), stubs=_HSTUBS)
+def a_delivered_telegram_is_marked_data_secure_exactly_when_it_arrived_secured(h, frame):
+    """CEMIHandler.handle_cemi_frame for an L_Data.ind, with or without keys: whatever is delivered (to the
+    telegram queue or to management) carries data_secure == 'the received frame had an S-A_Data payload' -
+    the mark is taken from the frame as received, not from the unwrapped one - and its payload is not the
+    secure wrapper any more."""
+    secured = isinstance(frame.payload, _SecureAPDU)
+    h.handle_cemi_frame(_CEMIFrame(code=_Code.L_DATA_IND, data=frame))
+    for t in list(ghost("queue")) + list(ghost("mgmt")):
+        assert t.data_secure is secured
+        assert not isinstance(t.payload, _SecureAPDU)
